@@ -161,7 +161,17 @@ impl Tm {
             return rf::encode(self.cfg.ep.ver, &rf::connect(self.cfg.ep.ver, "c", self.cfg.ep.client_keepalive, vec![]));
         }
         self.frame_seq += 1;
+        if self.frame_is_subscribe() {
+            // a frame that is not announced before it is complete (a PUBLISH is, as soon as its header is decoded:
+            // known findings C20-2/3), so the read-rate timer has to watch all of it
+            let filter = format!("f/{}", "x".repeat(38));
+            return rf::encode(self.cfg.ep.ver, &Pkt::Subscribe { pid: 100 + self.frame_seq as u16, props: vec![], filters: vec![(filter, 0)] });
+        }
         rf::encode(self.cfg.ep.ver, &rf::publish(0, 0, "t", &[b'a' + self.frame_seq; 17]))
+    }
+    /// read-rate configurations without an overall limit use a 47-byte SUBSCRIBE as the slow frame
+    fn frame_is_subscribe(&self) -> bool {
+        self.cfg.kind == Kind::ReadRate && matches!(self.cfg.ep.frame_read_rate, Some((_, 0, _)))
     }
     fn deliver(&mut self, b: &[u8], completes: bool) {
         self.conn.send_raw(b);
@@ -467,12 +477,14 @@ impl Scenario for Tm {
                     }
                     if let (Some((timeout, _, _)), Some(_)) = (self.cfg.ep.frame_read_rate, &self.frame) {
                         let last_bytes = self.frame_bytes.iter().map(|(t, _)| *t).max().unwrap_or(self.frame_start);
-                        if now - last_bytes >= late(timeout as u32) {
+                        // the period in which the last bytes arrived may still count as fast; the stall shows in the
+                        // period after it, so the cut comes up to two timer periods after the last delivery
+                        if now - last_bytes >= late(2 * timeout as u32) {
                             let delivered: usize = self.frame_bytes.iter().map(|(_, n)| *n).sum();
                             let hdr = if self.cfg.ep.ver == Ver::V5 { 6 } else { 5 };
                             return Err(Violation::new(
                                 "slow-frame-not-timed-out",
-                                self.wit(&format!("rate {timeout}s, stalled inside the PUBLISH {}", if delivered >= hdr { "payload" } else { "header" })),
+                                self.wit(&if self.frame_is_subscribe() { format!("rate {timeout}s, stalled inside a SUBSCRIBE") } else { format!("rate {timeout}s, stalled inside the PUBLISH {}", if delivered >= hdr { "payload" } else { "header" }) }),
                                 format!("a partial frame has been stalled for {}s (read timeout {timeout}s) and the connection is still up: {}", (now - last_bytes) as f32 / 2.0, self.detail()),
                             ));
                         }
@@ -632,6 +644,17 @@ pub fn configs(tier: Tier) -> Vec<TmCfg> {
             ep.frame_read_rate = Some((1, 3, 4));
             v.push(TmCfg { ep, kind: Kind::ReadRate, steady: None, horizon: 16, alphabet: vec![Part(3), Part(12), More(1), More(6), Rest, Pkt], max_events: if thorough { 6 } else { 5 }, combined: false, prefill_busy: 0 });
         }
+        // ---- frame read rate without an overall limit (max_timeout 0): a frame that keeps above the rate for
+        // several periods and then stalls must still be cut one period later (seeded change C20_r5 counted the
+        // bytes of earlier periods again from the third rate check on)
+        {
+            let mut ep = EpCfg::new(ver, Role::Server);
+            ep.client_keepalive = 0;
+            ep.handler_auto = true;
+            ep.proto_auto = true;
+            ep.frame_read_rate = Some((1, 0, 4));
+            v.push(TmCfg { ep, kind: Kind::ReadRate, steady: None, horizon: 18, alphabet: vec![Part(12), More(6), More(1), Rest], max_events: if thorough { 6 } else { 5 }, combined: false, prefill_busy: 0 });
+        }
         // ---- connect timeout 2 s
         {
             let mut ep = EpCfg::new(ver, Role::Server);
@@ -672,7 +695,7 @@ pub fn run(tier: Tier) -> i32 {
         ck.explore::<Tm>("timers", i, c, &e);
     }
     ck.rule = format!(
-        "virtual clock, half-second grid, horizon = timeout + 5 s: v3/v5 server with keep-alive 1,2,3 s (client value), server override smaller / larger / with client value 0, and 0 = library default; background traffic absent or one complete packet per (period - 0.5 s) delivered whole, in two writes, or split across two slots; on top every placement of up to {} events (one more for the fragment families) out of {{traffic stops, extra packet, partial frame + rest, a handler becomes busy / completes (v3 max_receive 1: reading paused)}}; frame read rate (1 s, 3 s overall, > 4 bytes per period) with every placement of up to 5 fragment deliveries of 1 / 3 / 6 / rest bytes; connect timeout 2 s with CONNECT in up to three fragments (single-version servers, and the combined server with a 2 s protocol-version timeout in front of it); client keep-alive 0..3 s, idle or with a busy handler or with a streamed publish open across a ping or with the send window exhausted (max_send 1, unacknowledged publish, a second sender parked). Oracle: timeout only after a gap >= the period (never for live peers, also after a reading pause), with DISCONNECT 0x8D on v5; an idle connection is ended within timeout + 1.5 s; read timeout never earlier than configured nor for a frame above the rate, always for a stalled one; CONNECT in time accepted, late one dropped, no handler before acceptance; client writes PINGREQ at least once per keep-alive period",
+        "virtual clock, half-second grid, horizon = timeout + 5 s: v3/v5 server with keep-alive 1,2,3 s (client value), server override smaller / larger / with client value 0, and 0 = library default; background traffic absent or one complete packet per (period - 0.5 s) delivered whole, in two writes, or split across two slots; on top every placement of up to {} events (one more for the fragment families) out of {{traffic stops, extra packet, partial frame + rest, a handler becomes busy / completes (v3 max_receive 1: reading paused)}}; frame read rate (1 s, 3 s overall, > 4 bytes per period) with every placement of up to 5 fragment deliveries of 1 / 3 / 6 / rest bytes of a PUBLISH, and the same rate without an overall limit on a 47-byte SUBSCRIBE (not announced before it is complete) delivered in pieces of 12 / 6 / 1 / rest bytes; connect timeout 2 s with CONNECT in up to three fragments (single-version servers, and the combined server with a 2 s protocol-version timeout in front of it); client keep-alive 0..3 s, idle or with a busy handler or with a streamed publish open across a ping or with the send window exhausted (max_send 1, unacknowledged publish, a second sender parked). Oracle: timeout only after a gap >= the period (never for live peers, also after a reading pause), with DISCONNECT 0x8D on v5; an idle connection is ended within timeout + 1.5 s; read timeout never earlier than configured nor for a frame above the rate, always for a stalled one; CONNECT in time accepted, late one dropped, no handler before acceptance; client writes PINGREQ at least once per keep-alive period",
         ecfg.max_dev
     );
     ck.assumptions = vec![
